@@ -21,7 +21,8 @@ reg('C01', 'propchecks.c01', 'proof', T1, [ASCII, DEPTH, CORR])
 reg('C03', 'propchecks.treespec', 'proof', T1, [ASCII, DEPTH, CORR])
 reg('C04', 'propchecks.treespec', 'proof', T1, [ASCII, DEPTH, CORR])
 reg('C05', 'propchecks.treespec', 'proof', T1, [ASCII, DEPTH, CORR])
-reg('C12', 'propchecks.treespec', 'proof', T1, [ASCII, DEPTH, CORR])
+C12M = 'Bashlex.Props.C12'
+reg('C12', 'propchecks.treespec', 'proof', [('Bashlex.C12.C12_partial', C12M), ('Bashlex.C12.C12_partial_single', C12M), ('Bashlex.C12.C12_only_pipelines', C12M), ('Bashlex.C12.parserRun_ok', C12M), ('Bashlex.C12.hooks_ok', C12M), ('Bashlex.C12.sat_nextToken', 'Bashlex.Props.C12.Tokens'), ('Bashlex.C12.grammar_ok', 'Bashlex.Props.C12.Grammar')] + T1, [ASCII, DEPTH, CORR])
 
 QC = 'Bashlex.Proofs.QCongr'
 T6 = [('Bashlex.Q.run_congr', QC), ('Bashlex.Q.run_strict_irrelevant', QC), ('Bashlex.Q.run_proceed_irrelevant', QC),
